@@ -782,6 +782,9 @@ movement S_Movement_0 { explicit_step }
 
 // edgeInputs are hand-written near-valid or tricky inputs (class "edge").
 var edgeInputs = []string{
+	`text T { format("some words to wrap here", numLines=2, numLines=3) }`,
+	`script S { msgbox(format("some words", "1_latin_rse", maxLineLength=50, fontId="1_latin_frlg")) }`,
+	`text T { format("a b c", cursorOverlapWidth=1, numLines=2, cursorOverlapWidth=1) }`,
 	"",
 	" ",
 	"\n\n\n",
